@@ -371,7 +371,8 @@ Proof.
       - unfold store_value in H.
         destruct v as [z|]; [|destruct (cl_allow_none cl)]; inversion H; subst;
           rewrite ?pop_frame_reent, ?rollback_frame_reent; exact F2.
-      - inversion H; subst. now rewrite pop_frame_reent. }
+      - destruct v as [z|]; [|destruct (cl_allow_none cl)]; inversion H; subst;
+          rewrite ?pop_frame_reent, ?rollback_frame_reent; exact F2. }
     assert (R2 : s_reent st2 = false) by exact (reent_false_of st2 st' Hflag2 Hre).
     assert (R1 : s_reent st1 = false) by exact (reent_false_of st1 st2 (MB _ _ _ _ _ _ _ _ _ Eb) R2).
     assert (Hre0 : s_reent st = false /\ mem_item i (s_stack st) = false).
@@ -445,8 +446,10 @@ Proof.
           * destruct g; [simpl in Hd; inversion Hd; congruence|]. simpl in Hd.
             unfold defs_of in Hd; simpl in Hd. rewrite El, Ec in Hd.
             destruct (dr_body g (s_cells st, s_refs st) (input_data st) (fst i) (snd i) [] (cl_body cl)) as [rg dg] eqn:Dg.
-            inversion Hd; subst r' ds.
-            destruct (Hbody eq_refl g dg rg Dg Hr' j a Hj He) as [X|X]; [now left|right; now right].
+            assert (Hdg : ds = RObj (fst i) :: dg /\ rg <> OutOfFuel).
+            { destruct rg; inversion Hd; subst; split; auto; try discriminate. }
+            destruct Hdg as (-> & Hrg).
+            destruct (Hbody eq_refl g dg rg Dg Hrg j a Hj He) as [X|X]; [now left|right; now right].
         + apply node_of_inj in Eq. subst k. contradiction. }
     destruct rb as [v|kb|]; [| |congruence].
     2:{ inversion H; subst r st'. destruct (Rollback ln eq_refl) as (RA & RB).
@@ -457,7 +460,7 @@ Proof.
       assert (Hcase : (v = VNone /\ cl_allow_none cl = false) \/
                       (store_value st2 cl i v = (Val v, upd_data st2 (set_data (s_data st2) i v)) /\
                        none_check cl v = Val v)).
-      { unfold store_value, none_check. rewrite Ec. destruct v; [now right|].
+      { unfold store_value, none_check. destruct v; [now right|].
         destruct (cl_allow_none cl); [now right|now left]. }
       destruct Hcase as [(-> & Ea)|(Hs & Hnc)].
       * unfold store_value in H. rewrite Ea in H. inversion H; subst r st'.
@@ -508,7 +511,14 @@ Proof.
               destruct (dr_body g (s_cells st, s_refs st) (input_data st) (fst i) (snd i) [] (cl_body cl)) as [[w|k|] dd];
                 inversion Hd; now left.
     + (* uncached *)
-      inversion H; subst r st'. clear H.
+      assert (Hcase : (v = VNone /\ cl_allow_none cl = false /\ (r, st') = (Err KNone, rollback_frame st2 0)) \/
+                      (r, st') = (Val v, pop_frame st2)).
+      { destruct v; [right; now rewrite <- H|].
+        destruct (cl_allow_none cl); [right; now rewrite <- H|left; repeat split; now rewrite <- H]. }
+      destruct Hcase as [(-> & Ea & H')|H']; inversion H'; subst r st'; clear H' H.
+      { destruct (Rollback 0 eq_refl) as (RA & RB).
+        split; [exact RA|]. intros Hk g r' ds Hd Hr'. apply (RB g r' ds Hd Hr').
+        intros _ g0 d0 rb' Db Hrb'. eapply XB; eauto. discriminate. }
       destruct (pop_frame_graph st2 i (s_stack st) K2) as (PE & _).
       destruct (pop_frame_fields st2) as (_ & FD & _).
       assert (Hc2 : is_cached st2 (fst i) = false).
@@ -527,9 +537,11 @@ Proof.
         destruct g; [simpl in Hd; inversion Hd; congruence|]. simpl in Hd.
         unfold defs_of in Hd; simpl in Hd. rewrite El, Ec in Hd.
         destruct (dr_body g (s_cells st, s_refs st) (input_data st) (fst i) (snd i) [] (cl_body cl)) as [rg dg] eqn:Dg.
-        inversion Hd; subst r' ds.
+        assert (Hdg : ds = RObj (fst i) :: dg /\ rg <> OutOfFuel).
+        { destruct rg; inversion Hd; subst; split; auto; try discriminate. }
+        destruct Hdg as (-> & Hrg).
         apply PE in He as [He|(jc & En & He)].
-        -- destruct (XB ltac:(discriminate) g (fst i) rg dg Dg Hr' j a Hj He) as [X|X]; [now left|right; now right].
+        -- destruct (XB ltac:(discriminate) g (fst i) rg dg Dg Hrg j a Hj He) as [X|X]; [now left|right; now right].
         -- right. left. assert (a = NObj (fst i)) by congruence. subst a. reflexivity.
   - (* ---------------- statements ---------------- *)
     intros st args locs whole rest idx r st' ln me d H Hr HG Hok Hre HC Hbok.
